@@ -17,6 +17,7 @@ PID = "C14"
 LEVEL = "model_checking"
 DESIGN_REF = "DESIGN.md section 4 / C14"
 CHUNK = 1
+CASE_TIMEOUT = 1500.0     # one case = a whole schedule subtree (thousands of executions)
 RULE = ("(a) alphabet of 9 call specifications (plain, bounded, 2-point FD, 3-point FD with "
         "other options, packaged scaler, restart from a frozen read-only checkpoint with a "
         "scaler, objective-redefining update function, a call whose objective raises, "
@@ -70,7 +71,8 @@ def convex2(v):
                                  minloc=["above", "below"], var=v))
 
 
-SPECS = ("plain", "bounded", "fd2", "fd3", "scaler", "restart", "update", "raises", "print")
+SPECS = ("plain", "bounded", "fd2", "fd3", "scaler", "restart", "update", "raises", "print",
+         "ownbuf")
 
 
 class Boom(Exception):
@@ -161,6 +163,21 @@ def make_call(spec, v, point=None, log=None, logger=None, iprint=None, nested=No
         ck.hess_inv = LbfgsInvHessProduct(ro(ck.hess_inv.sk), ro(ck.hess_inv.yk))
         args = dict(x0=ck.x, fun=wrapf(p.f), jac=wrap(p.g), bounds=ro(p.bounds), checkpoint=ck,
                     gradient_scaler=(lambda *a: 0.37), **kw)
+    elif spec == "ownbuf":
+        # linear term whose coefficient array belongs to the caller and is what the
+        # gradient callable returns at x0 (x0 = 0 of a QP: g = c); constant scaler 2.0
+        p = convex3(v)
+        cvec = np.array([3.0, -2.0, 1.5])
+        qd = np.array([2.0, 1.0, 4.0])
+        fr = lambda x: float(cvec @ x + 0.5 * (qd * x) @ x)  # noqa: E731
+
+        def gr(x):
+            return cvec if not np.any(x) else cvec + qd * x
+        lbz = np.array([-1.0, -1.0, -1.0])
+        ubz = np.array([2.0, 0.5, 1.0])
+        args = dict(x0=ro(np.zeros(3)), fun=wrapf(fr), jac=wrap(gr),
+                    bounds=ro(np.array([lbz, ubz]).T), gradient_scaler=(lambda *a: 2.0), **kw)
+        args["_own"] = cvec
     elif spec == "print":
         f = lambda x: float(np.sum(x + np.exp(-10 * x)))  # noqa: E731
         g = lambda x: 1.0 - 10 * np.exp(-10 * x)  # noqa: E731
@@ -174,7 +191,10 @@ def make_call(spec, v, point=None, log=None, logger=None, iprint=None, nested=No
     if iprint is not None:
         args["iprint"] = iprint
         args["logger"] = logger
+    own = args.pop("_own", None)
     frozen = {k: copy.deepcopy(args[k]) for k in ("x0", "bounds", "checkpoint") if k in args}
+    if own is not None:
+        frozen["_own"] = own.copy()
 
     def call():
         try:
@@ -184,7 +204,7 @@ def make_call(spec, v, point=None, log=None, logger=None, iprint=None, nested=No
             d = "raised:" + str(e)
         untouched = True
         for k, old in frozen.items():
-            new = args[k]
+            new = own if k == "_own" else args[k]
             if k == "checkpoint":
                 untouched &= (not H_same(new, old))
             elif old is not None:
@@ -224,7 +244,8 @@ def cases(tier, variants):
                 yield dict(part="seq", var=v, seq=list(seq))
         for ip in (-1, 0, 1, 50, 99, 100, 101, 1000):
             for lg in (0, 1):
-                for s in ("print", "update", "bounded", "dropper"):
+                for s in ("print", "update", "bounded", "dropper", "boxhit", "boxhit1",
+                          "boxhit2"):
                     yield dict(part="log", var=v, spec=s, iprint=ip, logger=lg)
         for pa in PAIRS:
             # all interleavings of short runs (first K points of each), split by the first
@@ -235,8 +256,8 @@ def cases(tier, variants):
             # longer runs (every user call a scheduling point): preemption-bounded
             fd = any(s.startswith("fd") for s in pa)
             b = (1 if fd else 2) if tier == "quick" else (2 if fd else 3)
-            for first in (0, 1):
-                yield dict(part="sched", var=v, pair=list(pa), short=False, prefix=[first],
+            for pre in itertools.product((0, 1), repeat=(1 if tier == "quick" else 3)):
+                yield dict(part="sched", var=v, pair=list(pa), short=False, prefix=list(pre),
                            bound=b)
         for a in ("bounded", "fd2", "fd3"):
             for b in ("plain", "fd2", "fd3", "restart"):
@@ -297,6 +318,8 @@ def run(case):
     if part == "log":
         spec = case["spec"]
         mk = (lambda **k: make_dropper(v, **k)) if spec == "dropper" else \
+            (lambda **k: make_boxhit(v, which=int(spec[6:] or 0), **k)) \
+            if spec.startswith("boxhit") else \
             (lambda **k: make_call(spec, v, **k))
         try:
             ref = mk(iprint=-1, logger=None)()[0]
@@ -379,7 +402,7 @@ def run(case):
                     out.append(("caller_inputs_modified", dict(thread=ti)))
             return out
         st = sched.explore(factory, case["bound"], check, prefix=tuple(case["prefix"]),
-                           max_exec=4000)
+                           max_exec=20000)
         for name, d, taken in st["findings"][:4]:
             viol.append(V(name, schedule=taken, **d))
         return dict(viol=viol, n_exec=st["executions"],
@@ -415,6 +438,27 @@ def make_dropper(v, iprint=None, logger=None, **k):
             kw.update(iprint=iprint, logger=logger)
         res = minimize_lbfgsb(x0=p.x0.copy(), fun=p.f, jac=p.g, bounds=p.bounds.copy(),
                               update_fun_def=upd, **kw)
+        return digest(res), True
+    return call
+
+
+def make_boxhit(v, iprint=None, logger=None, **k):
+    """All-boxed problems whose variables reach their bounds one after the other while
+    correction pairs exist, with free variables left at the Cauchy point (the auxiliary
+    vector of the Cauchy search matters there)."""
+    from lbfgsb import minimize_lbfgsb
+    which = k.get("which", 0)
+    n, hess, st, ml = [(4, "rot2", ["in", "lb"], ["below", "inside", "inside", "above"]),
+                       (3, "diag", ["in"], ["above", "below", "inside"]),
+                       (4, "rot2", ["lb", "ub"], ["below", "inside", "inside", "above"])][which]
+    p = F.convex_problem(dict(kind="convex", fam="qp", hess=hess, n=n, boxes=["box"] * n,
+                              start=F.tile(st, n), minloc=F.tile(ml, n), var=v))
+
+    def call():
+        kw = dict(maxcor=5, maxiter=25, ftol=0.0, gtol=1e-10)
+        if iprint is not None:
+            kw.update(iprint=iprint, logger=logger)
+        res = minimize_lbfgsb(x0=p.x0.copy(), fun=p.f, jac=p.g, bounds=p.bounds.copy(), **kw)
         return digest(res), True
     return call
 
